@@ -2,6 +2,7 @@ SPECIFICATION TSpec
 CONSTANTS
   WapTop <- C_WapTop
   EmptyPlusFieldRaises <- C_EmptyPlusFieldRaises
+  GluedAcceptUnrecognised <- C_GluedAcceptUnrecognised
 CONSTRAINT Record
 POSTCONDITION Post
 CHECK_DEADLOCK FALSE
